@@ -629,3 +629,50 @@ def _outer(B, op, resp_locals):
         if any(str(p).startswith('as:Continue') for p in pn):
             return False
     return True
+
+
+_run_before_relock_rule = run
+
+
+def run(ctx):
+    _run_before_relock_rule(ctx)
+    if type(ctx).__name__ != 'SubCtx':
+        connection_lock_not_retaken(ctx, 'C17.5-connection-lock-not-retaken')
+
+
+def connection_lock_not_retaken(ctx, rule):
+    """while a function holds the guard of a connection's mutex it does not ask for a connection mutex again"""
+    from ..families import guard_flow, awaited_guard_start
+    P = ctx.P
+    ctx.rule(rule, 'a function that holds the guard of a connection\'s tokio Mutex does not - itself or through a method of the node it awaits - lock a connection again before the guard is gone: '
+             'the mutex is not re-entrant, on the same connection the second lock is never granted, the call neither returns nor times out and every later call to that node queues behind it. '
+             'A rule about what must not be there', floor=0)
+    n = 0
+    for k in sorted(ctx.F.bodies):
+        if not k.startswith('edp_node::node::Node::') or '::tests::' in k:
+            continue
+        XB = P.B(k)
+        if XB is None:
+            continue
+        polls = [(bb, t) for bb, t in XB.calls() if (callee_of(t)[0] or '').endswith('Future::poll')]
+        locks = []
+        for pb, pt in polls:
+            o = XB.origin(pt['args'][0])
+            if o and o[0] == 'call' and str(o[1]).endswith('Mutex::<T>::lock') and 'Connection' in str(XB.blocks[o[2]]['t'].get('aty')):
+                locks.append((pb, o[2]))
+        if len(locks) < 2:
+            continue
+        for pb, lb in locks:
+            st = awaited_guard_start(XB, pb)
+            if not st:
+                continue
+            sin, _bt = guard_flow(XB, pb, start=st[0], holders=[st[1]])
+            again = [(pb2, lb2) for pb2, lb2 in locks if pb2 != pb and sin.get(lb2)]
+            if again:
+                n += 1
+                base = k.split('::{')[0]
+                ctx.bad(rule, '%s:lock-while-locked' % base.rsplit('::', 1)[1], '%s locks a connection while it still holds the guard of a connection mutex taken earlier in the same call: '
+                        'for the same connection that lock is never granted' % base.rsplit('::', 1)[1], ctx.where(XB, again[0][1]), key='LOCK:%s:connection-lock-retaken' % base)
+                break
+    if n == 0:
+        ctx.ok(rule, 'edp_node', 'no function asks for a connection mutex while it holds one')
